@@ -46,18 +46,25 @@ def run(ctx):
             continue
         a = asg[0]
         v = strip(a['l'])['n'] if a['k'] == 'asg' else a['n']
-        c = strip(load.eff_cond(a['_b']))
+        # the next branch after the store (straight-line blocks in between - the seam of an inlined helper - are walked through)
+        tb, extra = a['_b'], []
+        for _ in range(6):
+            if load.blocks[tb].get('term') or len(load.succ(tb)) != 1:
+                break
+            tb = load.succ(tb)[0]
+            extra += load.blocks[tb]['ev']
+        c = strip(load.eff_cond(tb))
         tested = isinstance(c, dict) and any(x.get('k') == 'var' and x['n'] == v for x in walk(c))
         # nothing may touch the result between the call and its test
-        between = [x for x in load.blocks[a['_b']]['ev'][a['_i'] + 1:] if uses_var(x, v)]
+        between = [x for x in load.blocks[a['_b']]['ev'][a['_i'] + 1:] + extra if uses_var(x, v)]
         tested = tested and not between
         ctx.check('C08.N1', tested, load.name, 'memchr:unchecked:%s' % v, load.where(e),
                   'the result of memchr (`%s`) is tested right away' % v)
         if not tested:
             continue
         nul = None
-        for i, s in enumerate(load.blocks[a['_b']]['succ']):
-            ef = load.edge_fact(a['_b'], i)
+        for i, s in enumerate(load.blocks[tb]['succ']):
+            ef = load.edge_fact(tb, i)
             if ef and ef[1] is False and is_var(v)(ef[2]):
                 nul = s
         if nul is None:
@@ -477,9 +484,14 @@ def run(ctx):
         bad = None
         for i, s in enumerate(rcn.blocks[bid]['succ']):
             ef = rcn.edge_fact(bid, i)
-            if ef and mentions_call(ef[2], e['name']) and ef[1] is True and s is not None:   # (x < 0) true
+            # (the wrapper around unlink() may or may not have been folded into the condition)
+            names_ = {e['name']} | ({'unlink', 'platformAwareUnlink'} if e in un else set())
+            if ef and any(mentions_call(ef[2], n_) for n_ in names_) and ef[1] is True and s is not None:   # (x < 0) true
+                # a destination that is not there is the one failure of the unlink that may be passed over
+                def not_enoent(b2, i2, s3):
+                    return not (e in un and any(p2 is True and 'errno' in k2 and '== 2' in k2 for k2, p2, a2 in rcn.edge_facts(b2, i2)))
                 r = rcn.find_path(None, lambda x: x['k'] == 'ret' and const_value(x.get('e')) != 0, from_succ=s,
-                                  is_blocker=lambda x: x['k'] == 'ret')
+                                  is_blocker=lambda x: x['k'] == 'ret', edge_ok=not_enoent)
                 bad = r
                 ctx.check('C08.O3', r is None, rcn.name, 'ReplaceContent:failure-ignored:%s' % e['name'], rcn.where(e),
                           'a failed %s makes ReplaceContent fail' % e['name'])
@@ -487,7 +499,7 @@ def run(ctx):
     # behind the failed unlink is under "errno is not ENOENT" (or the unlink is only attempted for an existing file)
     for e in un:
         rets = [x for x in rcn.events('ret') if const_value(x.get('e')) == 0 and
-                fact_holds(rcn.facts_at(x), lambda a: mentions_call(a, e['name']), True)]
+                fact_holds(rcn.facts_at(x), lambda a: mentions_call(a, e['name']) or mentions_call(a, 'unlink'), True)]
         for x in rets:
             ok = fact_holds(rcn.facts_at(x), lambda a: 'errno' in dstr(a) and '== 2' in dstr(a), False) or \
                 fact_holds(rcn.facts_at(e), lambda a: mentions_call(a, 'stat') or mentions_call(a, 'access'), None)
